@@ -22,6 +22,8 @@ Judge(e) ==
        (IF OK(e) \/ e.out.err # first.out.err THEN {"outcome_differs:" \o (IF OK(e) THEN "Ok" ELSE e.out.err) \o "/" \o first.out.err} ELSE {})
   ELSE IF ~OK(e) THEN {"outcome_differs:" \o e.out.err \o "/Ok"}
   ELSE (IF DOMAIN e.out.flat = DOMAIN first.out.flat THEN {} ELSE {"fields_differ"})
+       \* the metadata the file declares (key / value pairs) is part of what is read from it
+       \cup (IF "meta" \in DOMAIN e.out /\ "meta" \in DOMAIN first.out /\ SeqSet(e.out.meta) # SeqSet(first.out.meta) THEN {"metadata_differs"} ELSE {})
        \cup {"result_differs:" \o p : p \in {p \in (DOMAIN first.out.flat \ Ratios) : HasP(e, p) /\ ~EqN(e, V(e, p), V(first, p), 2)}}
        \cup {"result_differs:" \o p : p \in {p \in Ratios : HasP(e, p) /\ ~RatioEq(e, V(e, p), V(first, p))}}
 
